@@ -396,6 +396,9 @@ class Interp:
         if op in ("<", "<=", ">", ">=", "==", "!="):
             if a is OPAQUE or b is OPAQUE:
                 return OPAQUE
+            sa, sb = _strval(a), _strval(b)
+            if sa is not None and sb is not None and op in ("==", "!="):
+                return (sa == sb) if op == "==" else (sa != sb)
             try:
                 if isinstance(a, tuple) and isinstance(b, tuple) and a[:1] == ("enum",) and b[:1] == ("enum",):
                     a, b = a[:3], b[:3]
@@ -469,6 +472,8 @@ class Interp:
             return v[2].get(e["f"], OPAQUE)
         if isinstance(v, tuple) and v[0] == "tuple" and e["f"].isdigit() and int(e["f"]) < len(v[1]):
             return v[1][int(e["f"])]
+        if isinstance(v, tuple) and v[0] == "enum" and isinstance(v[2], list) and e["f"].isdigit() and int(e["f"]) < len(v[2]):
+            return v[2][int(e["f"])]
         return OPAQUE
 
     def e_tuple(self, e):
@@ -1001,6 +1006,13 @@ class Interp:
         finally:
             if new_scope:
                 self.scopes.pop()
+
+
+def _strval(v):
+    if isinstance(v, tuple) and v[:1] == ("str",):
+        return v[1]
+    s = getattr(v, "s", None)
+    return s if isinstance(s, str) else None
 
 
 def _names(p):
